@@ -46,4 +46,7 @@ theorem liveRegsOutcome_eq (n : Nat) :
   · simp [h]
   · simp [h]
 
+theorem toInt_ofInt_small (k : Nat) (h : k < 2 ^ 62) : (BitVec.ofInt 64 (k : Int)).toInt = k := by
+  rw [BitVec.toInt_ofInt]; apply Int.bmod_eq_of_le <;> omega
+
 end GoluaVerif.Proofs.LimitsLemmas
